@@ -298,5 +298,59 @@ func TestVerifAnalysis(t *testing.T) {
 			}
 		}()
 		vEmit(vmap{"ev": "Case", "scen": id, "npre": 1, "n": n, "signed": false, "base": 0, "panic": pan, "bad": bad, "kind": "projectors"})
+		// history: a load that is REFUSED (projectors of the right shape, basis of the wrong one) must leave the channel's
+		// model as it was - on a channel with a model (same record, same results afterwards) and on a bare one
+		if pan == "" && id%8 == 0 {
+			id++
+			var pan2 string
+			bad2 := []string{}
+			func() {
+				defer func() {
+					if r := recover(); r != nil {
+						pan2 = fmt.Sprint(r)
+					}
+				}()
+				mk := func() *DataRecord {
+					rec := &DataRecord{data: make([]RawType, n), presamples: 1}
+					for i, x := range c.X {
+						rec.data[i] = RawType(x)
+					}
+					return rec
+				}
+				before := mk()
+				d2.AnalyzeData([]*DataRecord{before})
+				P2 := mat.NewDense(c.K, n, nil)
+				for r := 0; r < c.K; r++ {
+					for j := 0; j < n; j++ {
+						P2.Set(r, j, float64(c.P[r][j])*3+1)
+					}
+				}
+				badB := mat.NewDense(n+1, c.K, nil) // wrong number of rows
+				if err := d2.SetProjectorsBasis(P2, badB, "refused"); err == nil {
+					bad2 = append(bad2, "refused_load_accepted")
+				}
+				after := mk()
+				d2.AnalyzeData([]*DataRecord{after})
+				if len(after.modelCoefs) != len(before.modelCoefs) || after.residualStdDev != before.residualStdDev {
+					bad2 = append(bad2, "refused_load_changed_model")
+				} else {
+					for r := range before.modelCoefs {
+						if after.modelCoefs[r] != before.modelCoefs[r] {
+							bad2 = append(bad2, "refused_load_changed_model")
+							break
+						}
+					}
+				}
+				bare := &DataStreamProcessor{NSamples: n, NPresamples: 1}
+				if err := bare.SetProjectorsBasis(P2, badB, "refused"); err == nil {
+					bad2 = append(bad2, "refused_load_accepted")
+				}
+				if bare.HasProjectors() {
+					bad2 = append(bad2, "refused_load_changed_model")
+				}
+				bare.AnalyzeData([]*DataRecord{mk()}) // must not crash
+			}()
+			vEmit(vmap{"ev": "Case", "scen": id, "npre": 1, "n": n, "signed": false, "base": 0, "panic": pan2, "bad": bad2, "kind": "refused-load"})
+		}
 	}
 }
